@@ -1,4 +1,4 @@
-import CalicoVerif.Proofs.C03Resolver
+import CalicoVerif.Proofs.C03Tiers
 /-!
 C03 — Each local endpoint gets exactly its matching policies, correctly ordered.
 
@@ -8,14 +8,17 @@ ExtractPolicyMetadata, PolicyResolver incl. pendingPolicyUpdates / dirty set / F
 policy matches is an input relation (the real ActiveRulesCalculator supplies it in the harness).
 
 What is PROVED, for ALL histories of resolver inputs with flushes anywhere (`runR`): `Flush` never hits
-the `Sorted()` panic, and every emitted endpoint update is the sorter's output — tiers ascending under
+the `Sorted()` panic; every emitted endpoint update is the sorter's output — tiers ascending under
 `TierLess`, policies inside a tier ascending under `PolKVLess` — filtered to the policies that match
-the endpoint (only matching policies, order preserved, empty tiers dropped); the ingress/egress split
-follows the policy's types.  What is NOT proved (hence `_partial`): that the sorter holds *exactly*
-the matched policies with their *current* metadata after every history (the refinement
-`resolver_eq_spec` of DESIGN §6).  That part is checked on the real code by the harness oracle, which
-recomputes every endpoint's list from scratch from the datastore state; it is the part that was false
-before commit c70bf97 (see the regression example at the end).
+the endpoint; at a flush in sync an emitted update lists EXACTLY the policies matching the endpoint,
+each with its current datastore metadata in the tier that metadata names
+(`emitted_lists_exact_partial`), with the datastore's tier attributes (`emitted_tier_attrs_partial`);
+the ingress/egress split follows the policy's types.  What is NOT proved (hence `_partial`):
+dirty-set completeness, i.e. that an endpoint a flush does not re-emit still has an up-to-date list —
+the last step to DESIGN §6's `resolver_eq_spec` ("last emitted list = list from scratch").  That is
+checked on the real code by the harness oracle, which recomputes every endpoint's list from scratch
+from the datastore state.  The exactness part was false of the code before commit c70bf97 (see the
+regression example at the end).
 -/
 namespace CalicoVerif.C03
 open CalicoVerif.C02
@@ -26,6 +29,86 @@ which the endpoint's tier list is the `filterTiers` image w.r.t. the match relat
 theorem resolver_output_sorted_matching_partial (hist : List RStep) :
     ∃ r outs, runR {} hist = some (r, outs) ∧ ∀ o ∈ outs, ∀ c ∈ o.2, GoodUpdate o.1 c :=
   runR_spec SInv.init hist
+
+/-- Soundness of the sorter's content, for ALL histories: every policy the PolicySorter holds
+(i) currently matches at least one local endpoint, (ii) is stored with exactly the metadata (order,
+flags, tier) of the policy as it is in the datastore now, (iii) in the tier that metadata names, and
+(iv) in no other tier; and every policy waiting in `pendingPolicyUpdates` still matches an endpoint.
+(This is the invariant that the code before /repo commit c70bf97 violated: (i) and (ii) failed for a
+policy whose last match stopped while it was pending.)  Not proved: the converse (every matched,
+known policy is held after an in-sync flush) and that a tier's btree lists exactly its map. -/
+theorem sorter_content_sound_partial (hist : List RStep) (r : Resolver)
+    (outs : List (List (PolicyKey × EpKey) × List Call)) (hr : runR {} hist = some (r, outs)) :
+    (∀ p n m, holdsIn r.sorter p n m → r.polHasMatch p = true ∧ mget r.allPolicies p = some m ∧ m.tier = n) ∧
+    (∀ p n n' m m', holdsIn r.sorter p n m → holdsIn r.sorter p n' m' → n = n') ∧
+    (∀ p, p ∈ r.pending → r.polHasMatch p = true) := by
+  have := runR_content RInv.init hist hr
+  exact ⟨this.held, this.uniq, this.pend⟩
+
+/-- Exactness of the sorter's content after a flush in sync, for ALL histories: right after a `Flush`
+executed while in sync, the set of policies held by the PolicySorter is EXACTLY the set of policies that
+match some local endpoint and exist in the datastore (each with its current metadata, by
+`sorter_content_sound_partial`).  Still `_partial` w.r.t. the property: not proved is that each
+tier's btree lists exactly its map, that tier attributes equal the datastore's, and dirty-set
+completeness (so that "last emitted list = list from scratch" follows). -/
+theorem sorter_content_exact_partial (hist : List RStep) (r : Resolver)
+    (outs : List (List (PolicyKey × EpKey) × List Call)) (hr : runR {} (hist ++ [.flush]) = some (r, outs))
+    (hsync : ∀ r0 outs0, runR {} hist = some (r0, outs0) → r0.inSync = true) (p : PolicyKey) :
+    (∃ n m, holdsIn r.sorter p n m) ↔ (r.polHasMatch p = true ∧ (mget r.allPolicies p).isSome) := by
+  constructor
+  · rintro ⟨n, m, hx⟩
+    obtain ⟨a, b, _⟩ := (runR_content RInv.init _ hr).held p n m hx
+    exact ⟨a, by simp [b]⟩
+  · rintro ⟨a, b⟩
+    exact runR_complete RInv.init Compl.init hist hr hsync p a b
+
+/-- **Exactly the matching policies, with their current metadata, in the tier that metadata names** —
+for ALL histories: take any history whose policy keys have pairwise different tie-break strings
+(`KeyU`; true of validated Calico names), let the resolver be in sync afterwards and flush.  Then for
+every endpoint update `u` that flush emits for an endpoint `e`, and every policy `p` / metadata `m`:
+`p` with `m` is listed in a tier of `u` named `m.tier`  ⟺  `p` currently matches `e` and `m` is the
+metadata of `p` as it is in the datastore now.  Together with `goodUpdate_meaning` (tiers / policies
+sorted, no empty tiers) and `split_by_type` this is the statement of C03 for the endpoints a flush
+emits (tier attributes: `emitted_tier_attrs_partial`).  Remaining gap to the full property (hence
+`_partial`): dirty-set completeness (an endpoint that is NOT re-emitted by a flush still has an
+up-to-date list) is not proved; it is covered by the from-scratch oracle on the real code. -/
+theorem emitted_lists_exact_partial (K : PolicyKey → Prop) (hK : KeyU K) (hist : List RStep) (hin : HistIn K hist)
+    (r0 : Resolver) (outs0 : List (List (PolicyKey × EpKey) × List Call)) (h0 : runR {} hist = some (r0, outs0))
+    (hsync : r0.inSync = true) (r' : Resolver) (calls : List Call) (hf : r0.flush = some (r', calls))
+    (e : EpKey) (u : EpUpd) (hu : Call.endpointUpdate e (some u) ∈ calls) (p : PolicyKey) (m : PolMeta) :
+    (∃ t' ∈ u.tiers, t'.name = m.tier ∧ ⟨p, m⟩ ∈ t'.policies) ↔
+      ((p, e) ∈ r0.matched ∧ mget r0.allPolicies p = some m) := by
+  have hfull := runR_full hK (Full.init K) hist hin h0
+  have hfull' := hfull.flush hK hf
+  obtain ⟨ts, hts, hm, ha, hcalls⟩ := flush_shape hsync hf
+  have hcomp := (hfull.compl.flush hfull.rinv hf).2 hsync
+  rw [hcalls, List.mem_map] at hu
+  obtain ⟨e', _, he'⟩ := hu
+  cases hep : mget r0.endpoints e' with
+  | none => rw [hep] at he'; simp at he'
+  | some ep =>
+    rw [hep] at he'
+    simp only [Call.endpointUpdate.injEq, Option.some.injEq] at he'
+    obtain ⟨rfl, rfl⟩ := he'
+    have := emitted_exact hfull'.rinv hfull'.tc hcomp hts e' p m
+    rw [hm, ha] at this
+    exact this
+
+/-- Tier attributes, for ALL histories: in every endpoint update emitted by a flush executed in sync,
+a tier carries the order and default action of the datastore's tier resource of that name
+(`dsHist [] hist` = the tier resources after the history); a tier that does not exist in the datastore
+(deleted, or only named by a policy) is listed with no order and an empty default action.  With
+`goodUpdate_meaning` this gives: existing tiers first, ascending datastore order, unset last, then name. -/
+theorem emitted_tier_attrs_partial (hist : List RStep) (r0 : Resolver)
+    (outs0 : List (List (PolicyKey × EpKey) × List Call)) (h0 : runR {} hist = some (r0, outs0))
+    (hsync : r0.inSync = true) (r' : Resolver) (calls : List Call) (hf : r0.flush = some (r', calls))
+    (e : EpKey) (u : EpUpd) (hu : Call.endpointUpdate e (some u) ∈ calls) (t' : TierInfo) (ht' : t' ∈ u.tiers) :
+    match mget (dsHist [] hist) t'.name with
+    | some (o, a) => t'.order = o ∧ t'.defaultAction = a
+    | none => t'.order = none ∧ t'.defaultAction = "" := by
+  have hfull := runR_content RInv.init hist h0
+  have hta := runR_tiers SInv.init TierAttr.init hist h0
+  exact emitted_tier_attrs hfull.sinv hta hsync hf e u hu t' ht'
 
 /-- `only_matching` + `policies_sorted` + `tiers_sorted`, spelled out for one emitted update. -/
 theorem goodUpdate_meaning {matched : List (PolicyKey × EpKey)} {e : EpKey} {u : EpUpd}
@@ -127,6 +210,12 @@ example : (runR {} [.ev (.status true),
     [⟨"t0", some 1, "Pass", true, [⟨R, ⟨some 10, false, false, false, true, true, "t0"⟩⟩]⟩,
      ⟨"t1", some 1, "Deny", true, [⟨Q, ⟨some 10, true, false, false, true, true, "t1"⟩⟩,
                                     ⟨P, ⟨none, false, false, false, true, true, "t1"⟩⟩]⟩]⟩)]] := by decide
+
+/-- the key-universe hypothesis of `emitted_lists_exact_partial` is satisfiable: the three keys above
+(equal names would need different namespaces/kinds) have pairwise different tie-break strings -/
+example : KeyU (fun k => k = P ∨ k = Q ∨ k = R) := by
+  constructor
+  rintro a b (rfl | rfl | rfl) (rfl | rfl | rfl) h <;> first | rfl | (exfalso; revert h; decide)
 
 /-- Regression for the defect fixed in /repo commit c70bf97 ("drop pending policy update when the
 policy's last match stops"): a policy matches and stops matching before the first flush, is then
